@@ -225,6 +225,14 @@ def frame_run(tier='quick'):
     return res
 
 
+def pptotal_run(tier='quick'):
+    from . import analyses as A
+    t0 = time.time()
+    fns, table, comb = collect()
+    r = A.pp_total_run(fns, table, comb)
+    return _pack('gvc.pptotal', [r], t0, samples=[dict(obligation='every directive-free position is accepted by source_description_not_directive', positions_checked=r.get('checked'))])
+
+
 def ident_run(tier='quick'):
     from . import analyses as A
     t0 = time.time()
